@@ -20,12 +20,16 @@ def corruptions():
         yield f"truncated after line {k}", "\n".join(lines[:k]) + "\n"
     yield "unbalanced END", VICTIM + "end module middle\n"
     yield "END at file level first", "end\n" + VICTIM
+    yield "stray END between two units", VICTIM + "end subroutine leftover\nmodule after\n  integer :: late\nend module after\n"
     yield "CONTAINS twice", VICTIM.replace("contains\n  subroutine init", "contains\ncontains\n  subroutine init")
     yield "CONTAINS in an interface", VICTIM.replace("    module procedure init\n", "    contains\n")
     yield "arbitrary text", "lorem ipsum (dolor sit & amet\n'unterminated string\n&&& ;;; !!\n"
     yield "leading ampersand", "& call nothing()\n"
     yield "spliced", VICTIM[: len(VICTIM) // 2] + GOOD["src/z_last.f90"]
     yield "undecodable bytes", b"module bad\n  character :: c = '\xff\xfe\xfa'\nend module bad\n\x80\x81"
+
+
+MUST_REJECT = {"unbalanced END", "END at file level first", "stray END between two units"}
 
 
 class Timeout(Exception):
@@ -101,6 +105,9 @@ def search():
             return {"confirmed": True, "input": {"corruption": label, "file": text if isinstance(text, str) else repr(text)}, "actual": f"run aborted: {type(e).__name__}: {e}",
                     "expected": "the bad file is reported and skipped", "how": "Project(...) with default settings"}
         others = {k: v for k, v in tree.items() if k != "m_bad.f90"}
+        if "m_bad.f90" in tree and label in MUST_REJECT:
+            return {"confirmed": True, "input": {"corruption": label, "file": text}, "actual": "the file was accepted and documented with the part before the unbalanced END",
+                    "expected": "a file with an unbalanced END is reported and skipped", "how": "Project(...) with default settings"}
         if "m_bad.f90" in tree:
             # the file happened to parse (e.g. truncation at a point where the rest is optional is impossible here, splice may parse): then nothing to compare
             parsed_ok = True
